@@ -496,6 +496,10 @@ func sortToType(s string) types.Type {
 func (fc *FnCtx) evalCall(env *Env, e *Expr) (Val, error) {
 	ti := fc.g.ti
 	switch e.Name {
+	case "old":
+		n := *env
+		n.cur = env.pre
+		return fc.eval(&n, e.Args[0])
 	case "len", "cap":
 		x, err := fc.eval(env, e.Args[0])
 		if err != nil {
